@@ -9,6 +9,8 @@ from .facts import Place, Operand, span_str
 
 IDENT, OKFLOW, DEPEND = 0, 1, 2
 
+SPAWN_BLOCKING = ("async_std::task::spawn_blocking", "tokio::task::spawn_blocking")
+
 
 # ----------------------------------------------------------------- paths
 
@@ -19,7 +21,12 @@ def norm_path(place):
         k = e["k"]
         if k == "field":
             nm = e.get("name")
-            out.append(("f", nm if nm is not None else str(e["i"])))
+            nm = nm if nm is not None else str(e["i"])
+            if e.get("owner_local") and e.get("owner"):
+                # field of a crate-local ADT: carries its owner (object-insensitive field abstraction)
+                out.append(("f", nm, e["owner"]))
+            else:
+                out.append(("f", nm))
         elif k == "downcast":
             out.append(("v", e.get("variant") or str(e["vi"])))
         elif k in ("index", "constindex", "subslice"):
@@ -33,6 +40,8 @@ def path_str(p):
     for e in p:
         if e[0] == "f":
             s += "." + str(e[1])
+        elif e[0] == "v" and False:
+            pass
         elif e[0] == "v":
             s += " as " + str(e[1])
         elif e[0] == "[]" and len(e) == 2:
@@ -212,6 +221,8 @@ class Origin:
         self.info = info      # param: local index; const: Operand; call: Term; agg: Rvalue ...
 
     def key(self):
+        if self.kind == "field":
+            return ("field", None, None, None, self.path, self.info)
         return (self.kind, self.body.path, self.blk, self.idx, self.path,
                 self.info if self.kind == "param" else None)
 
@@ -253,10 +264,20 @@ class Origin:
                                           " '%s'" % nm if nm else "")
         if self.kind == "const":
             return "const(%r)" % (self.info,)
+        if self.kind == "field":
+            return "field(%s.%s%s)" % (self.info[0], self.info[1], path_str(self.path))
         if self.kind == "call":
             return "call(%s%s @%s)" % (self.callee.rpath if self.callee else "?", path_str(self.path),
                                        self.loc())
         return "%s(@%s%s)" % (self.kind, self.loc(), path_str(self.path))
+
+
+def _last_local_field(q):
+    for i in range(len(q) - 1, -1, -1):
+        e = q[i]
+        if e[0] == "f" and len(e) == 3:
+            return i
+    return None
 
 
 def _variant_matches(path_elem, variant):
@@ -492,10 +513,30 @@ class BodyIndex:
             if (l, q) in seen:
                 continue
             seen.add((l, q))
+            if len(q) > 12 or len(seen) > 4000:
+                # cyclic data flow that keeps wrapping the value: give up on this branch
+                fi = _last_local_field(q)
+                if fi is not None:
+                    out.add(Origin("field", body, None, None, q[fi + 1:], (q[fi][2], q[fi][1])))
+                else:
+                    out.add(Origin("other", body, None, None, (), ("pathcap", l)))
+                continue
             defs = self.defs.get(l, [])
             is_arg = 1 <= l <= body.arg_count
             if is_arg:
-                out.add(Origin("param", body, None, None, q, l))
+                fi = _last_local_field(q)
+                is_env = body.def_kind == "Closure" and l == 1
+                if fi is not None and not (is_env and fi == 0):
+                    # object-insensitive, field-sensitive abstraction for crate ADTs reached through a
+                    # parameter (`self.f`, `opts.f`): the value is "field f of its ADT"; sources are
+                    # collected program-wide (Program.field_sources)
+                    if is_env:
+                        # capture of the closure env: keep the capture so that it can be lifted first
+                        out.add(Origin("param", body, None, None, q, l))
+                    else:
+                        out.add(Origin("field", body, None, None, q[fi + 1:], (q[fi][2], q[fi][1])))
+                else:
+                    out.add(Origin("param", body, None, None, q, l))
             if not defs and not is_arg:
                 out.add(Origin("other", body, None, None, q, ("undef", l)))
             for kind, blk, idx, d, obj in defs:
@@ -643,6 +684,8 @@ class Program:
         self.bodies = facts.bodies
         self.by_path = facts.by_path
         self._idx = {}
+        self._fsrc = None
+        self._lift_memo = {}
         # closure construction sites: closure path -> list of (parent body, blk, idx, Rvalue)
         self.ctor_sites = {}
         for b in self.bodies:
@@ -671,6 +714,41 @@ class Program:
                 self.fns[b.path] = lf
                 self.body_fn[b.path] = lf
                 self.body_fn[inner.path] = lf
+
+    def field_sources(self, owner, name):
+        """Program-wide sources of a crate ADT field: (body, blk, idx, Operand) for every aggregate
+        construction of the owner and every direct assignment to the field."""
+        if self._fsrc is None:
+            m = {}
+            local_adts = {a["path"] for a in self.facts.items["adts"]}
+            for b in self.bodies:
+                for blk in b.blocks:
+                    if blk.cleanup:
+                        continue
+                    for i, s in enumerate(blk.stmts):
+                        if s.k != "assign":
+                            continue
+                        rv = s.rv
+                        if rv.k == "agg" and rv.j["agg"] == "adt" and rv.j["path"] in local_adts:
+                            adt = rv.j["path"]
+                            is_enum = any(a["path"] == adt and a["kind"] == "Enum" for a in self.facts.items["adts"])
+                            own = "%s::%s" % (adt, rv.j["variant"]) if is_enum else adt
+                            for fn_, op in zip(rv.j["fields"], rv.ops):
+                                m.setdefault((own, str(fn_)), []).append((b, blk.i, i, op))
+                        # direct field assignment: last projection elem is a local-ADT field
+                        np_ = norm_path(s.place)
+                        if np_ and np_[-1][0] == "f" and len(np_[-1]) == 3:
+                            if rv.k == "use":
+                                m.setdefault((np_[-1][2], np_[-1][1]), []).append((b, blk.i, i, rv.ops[0]))
+                            else:
+                                m.setdefault((np_[-1][2], np_[-1][1]), []).append((b, blk.i, i, None))
+                    t = blk.term
+                    if t.k == "call" and t.dest is not None:
+                        np_ = norm_path(t.dest)
+                        if np_ and np_[-1][0] == "f" and len(np_[-1]) == 3:
+                            m.setdefault((np_[-1][2], np_[-1][1]), []).append((b, blk.i, None, None))
+            self._fsrc = m
+        return self._fsrc.get((owner, name), [])
 
     def idx(self, body):
         i = self._idx.get(body.path)
@@ -728,21 +806,59 @@ class Program:
         return None
 
     # -- lifting of closure captures ------------------------------------
-    def lift(self, origin):
-        """If `origin` is a capture of a closure/coroutine env, resolve it at the construction
-        site(s) in the parent body; returns a set of Origins (possibly the same one)."""
-        if origin.kind != "param":
-            return {origin}
+    def resolve_lifted(self, body, local, path=(), level=IDENT, _visited=None):
+        """resolve; lift closure captures into the enclosing bodies; descend into the closure run by
+        spawn_blocking when its awaited result is projected; abstract parameter-rooted crate-ADT
+        fields. Cycles across bodies are cut by a visited set."""
+        top = _visited is None
+        if top:
+            mk = (body.path, local, tuple(path), level)
+            if mk in self._lift_memo:
+                return self._lift_memo[mk]
+            _visited = set()
+        key = (body.path, local, tuple(path))
+        if key in _visited:
+            return set()
+        _visited.add(key)
+        res = self.idx(body).resolve(local, path, level)
+        out = set()
+        for o in res:
+            if o.kind == "param" and o.body.def_kind == "Closure" and o.info == 1 and o.path and o.path[0][0] == "f":
+                lifted = self._lift1(o, level, _visited)
+                if lifted is None:
+                    out.add(self._abstract(o))
+                else:
+                    out |= lifted
+            elif o.kind == "call" and o.path and o.path[0] == ("await",) and o.callee is not None \
+                    and o.callee.path in SPAWN_BLOCKING:
+                rest = o.path[1:]
+                if rest[:1] == (("await_join",),):
+                    rest = rest[1:]
+                d = self._closure_return(o, rest, level, _visited)
+                if d is None:
+                    out.add(self._abstract(o))
+                else:
+                    out |= d
+            else:
+                out.add(self._abstract(o))
+        if top:
+            self._lift_memo[mk] = out
+        return out
+
+    def _abstract(self, o):
+        if o.kind in ("param", "other", "resume"):
+            fi = _last_local_field(o.path)
+            if fi is not None:
+                return Origin("field", o.body, None, None, o.path[fi + 1:], (o.path[fi][2], o.path[fi][1]))
+        return o
+
+    def _lift1(self, origin, level, visited):
         b = origin.body
-        if b.def_kind != "Closure" or origin.info != 1:
-            return {origin}
-        if not origin.path or origin.path[0][0] != "f":
-            return {origin}
         cap = origin.path[0][1]
         rest = origin.path[1:]
         sites = self.ctor_sites.get(b.path, [])
         if not sites:
-            return {origin}
+            return None
         out = set()
         for (pb, blk, i, rv) in sites:
             names = rv.j.get("fields", [])
@@ -751,42 +867,29 @@ class Program:
                 if str(nm) == str(cap):
                     sel = k
             if sel is None or sel >= len(rv.ops):
-                out.add(origin)
-                continue
+                return None
             op = rv.ops[sel]
             if op.place is None:
                 out.add(Origin("const", pb, blk, i, rest, op))
             else:
-                out |= self.resolve_lifted(pb, op.place.local, norm_path(op.place) + rest, IDENT)
+                out |= self.resolve_lifted(pb, op.place.local, norm_path(op.place) + rest, level, visited)
         return out
 
-    def resolve_lifted(self, body, local, path=(), level=IDENT, depth=0):
-        """resolve + lift captures transitively into enclosing bodies."""
-        res = self.idx(body).resolve(local, path, level)
+    def _closure_return(self, o, rest, level, visited):
+        """Value returned by the closure passed as arg0 of the call origin `o`."""
+        t = o.term
+        if not t.args or t.args[0].place is None:
+            return None
+        leaves = self.idx(o.body).resolve_place(t.args[0].place, IDENT)
         out = set()
-        for o in res:
-            if o.kind == "param" and o.body.def_kind == "Closure" and o.info == 1 and depth < 8:
-                lifted = self.lift(o)
-                for lo in lifted:
-                    if lo == o:
-                        out.add(lo)
-                    elif lo.kind == "param" and lo.body.def_kind == "Closure" and lo.info == 1:
-                        out |= self._relift(lo, depth + 1)
-                    else:
-                        out.add(lo)
+        for l in leaves:
+            if l.kind == "agg" and l.info.j["agg"] == "closure":
+                cb = self.by_path.get(l.info.j["path"])
+                if cb is None:
+                    return None
+                out |= self.resolve_lifted(cb, 0, tuple(rest), level, visited)
             else:
-                out.add(o)
-        return out
-
-    def _relift(self, o, depth):
-        if depth > 8:
-            return {o}
-        out = set()
-        for lo in self.lift(o):
-            if lo != o and lo.kind == "param" and lo.body.def_kind == "Closure" and lo.info == 1:
-                out |= self._relift(lo, depth + 1)
-            else:
-                out.add(lo)
+                return None
         return out
 
     def resolve_op(self, body, op, level=IDENT, blk=None):
